@@ -174,7 +174,7 @@ def _run_one(prop, spec, workdir, idx, env):
     out_path = os.path.join(workdir, 'out%d.json' % idx)
     with open(spec_path, 'w') as f:
         json.dump(spec, f)
-    timeout = spec.get('timeout', 600)
+    timeout = spec.get('timeout', 1800)
     cmd = [sys.executable, '-m', 'vmon.core', '--shard', prop, spec_path, out_path]
     t0 = time.time()
     try:
